@@ -13,6 +13,10 @@ type bigInt = big.Int
 
 var one = big.NewInt(1)
 
+// maxLen: residual assumption A-INT — no string or slice is longer than 2^61
+// elements (the address space of a 64-bit process is far smaller).
+const maxLen = "2305843009213693952"
+
 // VC is the per-function verification-condition builder.
 type VC struct {
 	eng  *Engine
@@ -506,7 +510,7 @@ func (vc *VC) wellFormed(v Val) Term {
 		}
 	case KSlice:
 		s := v.Sl
-		return and(app("<=", "0", s.Off), app("<=", "0", s.Len), app("<=", s.Len, s.Cap),
+		return and(app("<=", "0", s.Off), app("<=", "0", s.Len), app("<=", s.Len, s.Cap), app("<=", s.Cap, maxLen), app("<=", s.Off, maxLen),
 			implies(eq(s.Base, "0"), and(eq(s.Cap, "0"), eq(s.Off, "0"))))
 	case KStruct, KTuple:
 		var fs []Term
